@@ -14,6 +14,12 @@ package sweeper
 // (prefix _sync) are opened for sweeping.
 //@ func (s *Sweeper) sweep
 //@   modifies *
+//@   after_call time.Now#1 ghost loc_nowWall := ret0.wall
+//@   after_call time.Now#1 ghost loc_nowExt := ret0.ext
+//@   at_call time.(Time).Add#0 assert now_minus_whole_retention: arg0.wall == ghost_loc_nowWall && arg0.ext == ghost_loc_nowExt && int64(arg1) == -int64(s.conf.RetentionDuration())
+//@   after_call time.(Time).Add#0 ghost loc_cutWall := ret0.wall
+//@   after_call time.(Time).Add#0 ghost loc_cutExt := ret0.ext
+//@   at_call header.TimestampFromTime#0 assert cutoff_is_that_time: arg0.wall == ghost_loc_cutWall && arg0.ext == ghost_loc_cutExt
 //@   after_call header.TimestampFromTime#0 ghost loc_cutoff := uint64(ret0)
 //@   at_call lmdb.(*Env).Update#0 assert private_only: s.schemaTracksChanges || hasPrefix(dbiName, "_sync")
 
